@@ -128,3 +128,11 @@ Theorem C16_no_usable_mx_coherent :
     Z.eqb (cls (fst r)) 4 = last fails false.
 Proof. exact RemoteCorr.no_usable_mx_coherent. Qed.
 Print Assumptions C16_no_usable_mx_coherent.
+
+(* ... and so is the reply for a failing MX lookup, temporary or not *)
+Theorem C16_mx_lookup_error_coherent :
+  forall t,
+    let r := RemoteCorr.mx_lookup_error t in
+    coherent {| r_code := fst r; r_ench := snd r; r_msg := [] |} = true /\ Z.eqb (cls (fst r)) 4 = t.
+Proof. exact RemoteCorr.mx_lookup_error_coherent. Qed.
+Print Assumptions C16_mx_lookup_error_coherent.
